@@ -163,6 +163,16 @@ impl<'a> TagTrainer<'a> {
             .iter()
             .fold(0, |acc, x| acc + if x.len() >= 2 { x.len() } else { 0 });
 
+        #[cfg(feature = "verif-hooks")]
+        for (category, ids) in tag_ids.iter().enumerate() {
+            for (tag, id) in ids {
+                crate::verif::with_trace(|t| {
+                    t.tag_classes
+                        .push((token.clone(), category, *id, tag.to_string()))
+                });
+            }
+        }
+
         let mut bias = vec![0; n_class];
 
         // Uses BTreeMap to increase compression ratio.
